@@ -4,6 +4,10 @@ import json, os, sys
 HERE = os.path.dirname(os.path.abspath(__file__))
 
 CHECKS = {
+ 'C10': dict(technique='runtime monitor: name sets known by construction vs parse()/evaluator() metadata; exhaustive event-sequence differential of the shared parser against freshly constructed parsers; invariant hook on MathParser.parse (scratch sets empty, no aliasing, cached sets immutable)',
+             text='Exploration by runtime monitoring: (A) reported variable/function/suffix sets for thousands of generated derivations and 40 hand-listed confusables; (B) all event sequences of length <=3 (<=4 thorough) over 12 strings (valid, whitespace variants, unbalanced, unparsable after names were seen, undefined names, RecursionError-deep) x {parse, eval in two scopes} on the process-wide parser, each step compared with a fresh MathParser, plus random sequences up to length 64; (C) an invariant checked at a hook after every parse return/raise.',
+             note='Trusted: generator bookkeeping of used names; a fresh MathParser as the history-free reference; the hook is a pass-through wrapper on the class attribute.',
+             ref='DESIGN.md section 4, C10'),
  'C03': dict(technique='runtime monitor: evaluator() outcomes vs two independent reference evaluations of the generating derivation (AST evaluator + hand-written recursive-descent parser over tokens); rendering differential; invalid-by-construction strings vs the documented error family',
              text='Exploration by runtime monitoring: every operator sequence up to length 3 (4 in thorough) with every unary-minus placement, on real and complex bindings, plus thousands of random derivations (all literal forms, names, functions, arrays) each in 6 renderings, are evaluated by the real evaluator and judged against reference values; the run measures how many cases discriminate each wrong grammar hypothesis (level swap, associativity flips).',
              note='Trusted: the two reference evaluators (cross-checked against each other on every derivation; disagreement = inconclusive); 1e-9 relative tolerance scaled by the largest intermediate; cases where the reference is undefined (overflow, division by zero, complex value exactly on a branch cut) only require a student-facing error.',
